@@ -59,7 +59,7 @@ CHECKS = {
         note="Trusted: reference reader; respelling generator."),
     "C14": dict(engine="E5-environment", design="§2 E5, §3 C14",
         technique="fresh-interpreter enumeration of hash seeds; explicit-state BFS over call histories to a fixpoint of the canonical module state; stateless exploration of thread schedules with iterative context bounding under a cooperative scheduler (sys.monitoring)",
-        text="241-item workload identical under 16 (thorough 256+8 random) hash seeds; BFS over 8 (thorough 14) public calls incl. failing parses reaches a fixpoint of the module state (128 states quick) with every transition's result equal to a fresh process; all schedules with <=1 preemption (thorough <=2 on two harnesses, 3 threads at 1) at line granularity give the sequential results and leave a module state on which a probe workload still agrees.",
+        text="241-item workload identical under 16 (thorough 256+8 random) hash seeds; BFS over 8 (thorough 14) public calls incl. failing parses reaches a fixpoint of the module state (128 states quick) with every transition's result equal to a fresh process; all schedules with <=1 preemption (thorough: <=2 on two short two-thread harnesses, three more harnesses incl. 3 threads at <=1) at line granularity give the sequential results and leave a module state on which a probe workload still agrees.",
         note="Line-granularity interleavings of instrumented code (all tucan functions + ANTLR lexer cache functions); GIL; private equal-valued inputs per thread."),
     "C15": dict(engine="E4-sizes", design="§2 E4, §3 C15",
         technique="exhaustive size ladder (every n up to N_small for 13 families) plus large sizes chosen from the measured frame-depth curve",
